@@ -1,9 +1,9 @@
 package an
 
 import (
-	"regexp"
 	"fmt"
 	"go/types"
+	"regexp"
 	"strings"
 
 	"golang.org/x/tools/go/ssa"
@@ -130,6 +130,7 @@ func runC16(p *Prog, r *Report) {
 	r.Describe("C16.8/accept-loop", "the accept goroutine of every stream transport never waits for an accepted peer (no read, TLS or SP handshake inside the loop around Accept)")
 	acceptLoopRules(p, r, "C16.8/accept-loop")
 	r.Floor("C16.8/accept-loop", "wire.accept_loops", 3)
+	acceptPauseBounded(p, r, "C16.21/accept-pause-bounded")
 	r.Describe("C16.9/reply-matching", "a reply whose id matches no outstanding request (stale, replayed or forged) is dropped: the id of an answered or abandoned request is forgotten")
 	c03ReplyMatching(p, r, "C16.9/reply-matching")
 	r.Describe("C16.6/handshake-validation", "malformed or mismatched headers never yield a pipe and never look like 'listener closed' to the accept loop")
@@ -439,4 +440,48 @@ func (p *Prog) paramFedBy(v ssa.Value, pat string) bool {
 		}
 	}
 	return false
+}
+
+// acceptPauseBounded: a refused handshake comes back from Accept as an error, so any peer can
+// make the accept loop take its error path as often as it likes.  Whatever the loop does there
+// must not grow with the number of failures: every time.Sleep inside a loop around an Accept
+// takes a compile-time constant of at most 100ms.
+func acceptPauseBounded(p *Prog, r *Report, R string) {
+	r.Describe(R, "the pause an accept loop takes after a failed Accept is a small constant (time.Sleep of a compile-time constant <= 100ms): refused handshakes are accept errors, so a pause that grows with consecutive failures lets misbehaving peers delay the well-behaved ones")
+	n := 0
+	for _, fn := range p.Funcs {
+		rel, ok := p.FuncRel(fn)
+		if !ok || !(rel == "internal/core" || strings.HasPrefix(rel, "transport")) || strings.HasSuffix(p.Fset.Position(fn.Pos()).Filename, "_test.go") {
+			continue
+		}
+		EachInstr(fn, func(in ssa.Instruction) {
+			c := CallOf(in)
+			if c == nil || !c.IsInvoke() || c.Method.Name() != "Accept" {
+				return
+			}
+			_, body := loopBody(in.Block())
+			if body == nil {
+				return
+			}
+			n++
+			bad := ""
+			for b := range body {
+				for _, x := range b.Instrs {
+					cc := CallOf(x)
+					if cc == nil || CalleeName(cc) != "time.Sleep" || len(cc.Args) != 1 {
+						continue
+					}
+					d, isConst := ConstInt(cc.Args[0])
+					if !isConst {
+						bad = "time.Sleep(" + Desc(cc.Args[0]) + ") at " + p.InstrPos(x) + " is not a constant"
+					} else if d > 100_000_000 {
+						bad = "time.Sleep of " + Desc(cc.Args[0]) + "ns at " + p.InstrPos(x)
+					}
+				}
+			}
+			r.Check(bad == "", R, p.FuncName(fn)+"/accept-loop", p.InstrPos(in), "pauses in the accept loop are constants <= 100ms", "the accept loop pauses for a time that is not a small constant ("+bad+"): a run of refused handshakes makes the loop sleep while completed handshakes of good peers wait to be accepted")
+		})
+	}
+	r.Count("c16.accept_loops_with_pause_rule", n)
+	r.Floor(R, "c16.accept_loops_with_pause_rule", 1)
 }
